@@ -8,6 +8,7 @@ import (
 	"golang.org/x/tools/go/ssa"
 
 	"wpverif/internal/load"
+	"wpverif/internal/prov"
 )
 
 // fn resolves an anchor function by name; an unresolvable anchor is an
@@ -76,3 +77,6 @@ func hasPrefixAny(s string, ps ...string) bool {
 	}
 	return false
 }
+
+func calleeIs(c *ssa.Call, name string) bool { return prov.CalleeName(&c.Call) == name }
+func provOf(v ssa.Value) string               { return prov.Of(v) }
